@@ -49,9 +49,21 @@ NOTES = {
  'C17-k2': 'missed at first; Nack reason codes beyond the well-known four; caught since',
  'C18-k2': 'missed at first; node names with unusual component types; caught since',
  'C20-k1': 'missed at first; empty / comment-only files as content classes; caught since',
+ 'C03-j2': 'missed at first (no template combined CanBePrefix with an implicit digest); such templates added to NdnPitMC and the random driver; caught since',
+ 'C05-j1': 'missed at first (a wrong digest was always a damaged one); every second wrong digest is now the correct digest of an earlier Interest\'s parameters; caught since',
+ 'C10-j2': 'missed at first (Nack header around Data only for names nobody waits for in C10); Nack-headed envelopes around matching Data added to C10\'s junk; caught since',
+ 'C02-j1': 'missed at first (one signer object per packet); signer objects are reused for several packets; caught since',
+ 'C02-j2': 'missed at first (no tamper class lengthened the signature value); trailing / removed signature octets with all lengths fixed up added; caught since',
+ 'C07-j1': 'the check stopped with a machinery failure at first (corpus construction assumed the decoder\'s field order); made robust, certificates with ValidityPeriod + AdditionalDescription compared field by field; caught since',
+ 'C09-j2': 'missed at first (URI text was ASCII only); raw non-ASCII characters added to the URI alphabet; caught since',
+ 'C11-j2': 'missed at first; redefinitions with per-definition constraints on the same temporary pattern, referenced twice, added to the generator; caught since',
+ 'C14-j1': 'missed at first; the signature type of every link became an adversary choice (HMAC keyed with public key bits, digest, mismatching types); caught since',
+ 'C16-j1': 'missed at first; identity names containing the component KEY added; caught since',
+ 'C16-j2': 'missed at first; self_sign on 29 February of years whose +20 year is a leap year added to CertTime; caught since',
+ 'C18-j1': 'missed at first; the application may publish from inside the missing-data callback (re-entrancy); caught since',
 }
 rows = []
-for d in sorted(glob.glob(ROOT + '/C*-[mnk]*')):
+for d in sorted(glob.glob(ROOT + '/C*-[mnkj]*')):
     sid = os.path.basename(d)
     prop = sid.split('-')[0]
     notes = open(os.path.join(d, 'notes.md')).read() if os.path.exists(os.path.join(d, 'notes.md')) else ''
